@@ -81,9 +81,27 @@ def build_dir():
     return d
 
 
+def inv_tag():
+    """names of build products are unique per driver invocation, so that concurrent invocations
+    (several checks at once, a self-test next to a check) never rewrite each other's files"""
+    return "%s-%d" % (hashlib.sha1(REPO.encode()).hexdigest()[:8], os.getpid())
+
+
+def remove_build_products():
+    bd = build_dir()
+    tag = inv_tag()
+    for d in (bd, os.path.join(bd, "bin")):
+        for fn in os.listdir(d):
+            if tag in fn:
+                try:
+                    os.remove(os.path.join(d, fn))
+                except OSError:
+                    pass
+
+
 def prepare_overlay():
     bd = build_dir()
-    tag = hashlib.sha1(REPO.encode()).hexdigest()[:8]
+    tag = inv_tag()
     # modfile: /repo's own go.mod + rapid, never written back to /repo
     mod = open(os.path.join(REPO, "go.mod")).read()
     if "pgregory.net/rapid" not in mod:
@@ -123,7 +141,7 @@ def prepare_overlay():
 
 
 def bin_path(pkg, race):
-    tag = hashlib.sha1(REPO.encode()).hexdigest()[:8]
+    tag = inv_tag()
     suffix = ""
     if isinstance(race, str):
         suffix = "-" + race.replace(":", "-")
@@ -353,6 +371,7 @@ def main():
                         continue
                     pkgs.add((u["pkg"], bool(cfg.get("race", False))))
         ok, msg = build(pkgs)
+        remove_build_products()  # the point of ALL-BUILD is the warm Go build cache, not the binaries
         if not ok:
             log(msg)
             return 2
@@ -380,6 +399,7 @@ def main():
     def cleanup():
         if not args.keep:
             shutil.rmtree(scratch, ignore_errors=True)
+            remove_build_products()
 
     try:
         return run_property(pid, prop, units, by_test, tier, seed, scratch, args, t0)
